@@ -9,6 +9,7 @@ import (
 	"strings"
 	"time"
 
+	"github.com/splunk/stef/go/otel/otelstef"
 	"github.com/splunk/stef/go/pkg"
 
 	"verif/harness/internal/recgen"
@@ -277,6 +278,109 @@ func runHostileMode() {
 		}
 		if i%400 == 0 {
 			sample("hostile input kind=%s root=%s len=%d class=%s records=%d allocMiB=%d", kind, b.root.name, len(in), res.class, res.records, alloc>>20)
+		}
+	}
+	bigArrayCases()
+}
+
+// bigArrayCases: C03, allocation accounting of struct arrays. One record whose struct array has so
+// many (default) elements that the elements alone exceed RecordAllocLimit although the stream is
+// small and the pointer slice alone would fit: the reader must refuse it (record allocation limit)
+// or stay within the limit - it must not allocate N x sizeof(element) unaccounted.
+func bigArrayCases() {
+	const n = 1 << 20
+	type bcase struct {
+		name  string
+		root  string
+		build func() ([]byte, error)
+	}
+	metrics := func(f func(r *otelstef.Metrics)) func() ([]byte, error) {
+		return func() ([]byte, error) {
+			buf := &pkg.MemChunkWriter{}
+			w, err := otelstef.NewMetricsWriter(buf, pkg.WriterOptions{})
+			if err != nil {
+				return nil, err
+			}
+			f(&w.Record)
+			if err := w.Write(); err != nil {
+				return nil, err
+			}
+			if err := w.Flush(); err != nil {
+				return nil, err
+			}
+			return buf.Bytes(), nil
+		}
+	}
+	spans := func(f func(r *otelstef.Spans)) func() ([]byte, error) {
+		return func() ([]byte, error) {
+			buf := &pkg.MemChunkWriter{}
+			w, err := otelstef.NewSpansWriter(buf, pkg.WriterOptions{})
+			if err != nil {
+				return nil, err
+			}
+			f(&w.Record)
+			if err := w.Write(); err != nil {
+				return nil, err
+			}
+			if err := w.Flush(); err != nil {
+				return nil, err
+			}
+			return buf.Bytes(), nil
+		}
+	}
+	cases := []bcase{
+		{"exemplars", "Metrics", metrics(func(r *otelstef.Metrics) { r.Point().Exemplars().EnsureLen(n) })},
+		{"quantiles", "Metrics", metrics(func(r *otelstef.Metrics) {
+			r.Point().Value().SetType(otelstef.PointValueTypeSummary)
+			r.Point().Value().Summary().QuantileValues().EnsureLen(n)
+		})},
+		{"anyvalue-array", "Metrics", metrics(func(r *otelstef.Metrics) {
+			r.Attributes().EnsureLen(1)
+			r.Attributes().SetKey(0, "k")
+			r.Attributes().Value(0).SetType(otelstef.AnyValueTypeArray)
+			r.Attributes().Value(0).Array().EnsureLen(n)
+		})},
+		{"events", "Spans", spans(func(r *otelstef.Spans) { r.Span().Events().EnsureLen(n) })},
+		{"links", "Spans", spans(func(r *otelstef.Spans) { r.Span().Links().EnsureLen(n) })},
+	}
+	var ms runtime.MemStats
+	for _, c := range cases {
+		note("case ho-bigarray-%s", c.name)
+		stream, err := c.build()
+		if err != nil {
+			note("note bigarray %s: writer refused: %v", c.name, err)
+			continue
+		}
+		runtime.GC()
+		var root *rootSpec
+		for _, r := range roots {
+			if r.name == c.root {
+				root = r
+			}
+		}
+		runtime.ReadMemStats(&ms)
+		before := ms.TotalAlloc
+		done := make(chan hostileResult, 1)
+		go readHostile(root, stream, done)
+		var res hostileResult
+		select {
+		case res = <-done:
+		case <-time.After(20 * time.Second):
+			res.class = "hang"
+		}
+		runtime.ReadMemStats(&ms)
+		alloc := ms.TotalAlloc - before
+		stats["bigarray-"+res.class]++
+		note("nontrivial %x", fnv("bigarray", c.name))
+		sample("big array %s: %d elements in a %d byte stream: reader class=%s records=%d allocated %d MiB", c.name, n, len(stream), res.class, res.records, alloc>>20)
+		bound := uint64(pkg.RecordAllocLimit) + uint64(pkg.RecordAllocLimit)/4 + 8<<20
+		switch {
+		case res.class == "panic":
+			propFail("C03 reader-panic-%s bigarray %s: %s", res.site, c.name, res.pan)
+		case res.class == "hang":
+			propFail("C03 reader-hang bigarray %s: no result after 20 s", c.name)
+		case alloc > bound:
+			propFail("C03 over-allocation-struct-array %s: one record with %d default elements (%d byte stream): the reader (class %s, %d records) allocated %d bytes, more than RecordAllocLimit (%d) + 25%% + 8 MiB: the elements of a struct array are not accounted before they are allocated", c.name, n, len(stream), res.class, res.records, alloc, pkg.RecordAllocLimit)
 		}
 	}
 }
